@@ -329,24 +329,25 @@ structure IntroData where
 
 /-! ## marshalValue (marshal_value.go:13-60) -/
 
-def hexDigit (n : Nat) : Char :=
-  if n < 10 then Char.ofNat (n + 48) else Char.ofNat (n - 10 + 97)
+/-- Lower-case hexadecimal digit (Go: `"0123456789abcdef"[n]`). -/
+def hexDigit (n : Nat) : Char := Nat.digitChar n
 
 /-- `\u00XX` / `\uXXXX` with four lower-case hex digits. -/
 def uEscape (n : Nat) : List Char :=
   ['\\', 'u', hexDigit (n / 4096 % 16), hexDigit (n / 256 % 16), hexDigit (n / 16 % 16), hexDigit (n % 16)]
 
-/-- Go's `encoding/json` string escaping as used by `json.Marshal` (HTML escaping on). -/
+/-- Go's `encoding/json` string escaping as used by `json.Marshal` (HTML escaping on), per code
+    point (Go 1.22+: `\b` and `\f` have short forms). -/
 def jsonEscapeChar (c : Char) : List Char :=
-  if c = '"' then ['\\', '"']
-  else if c = '\\' then ['\\', '\\']
-  else if c = '\n' then ['\\', 'n']
-  else if c = '\r' then ['\\', 'r']
-  else if c = '\t' then ['\\', 't']
+  if c.toNat = 34 then ['\\', '"']                       -- "
+  else if c.toNat = 92 then ['\\', '\\']                  -- \
+  else if c.toNat = 10 then ['\\', 'n']
+  else if c.toNat = 13 then ['\\', 'r']
+  else if c.toNat = 9 then ['\\', 't']
   else if c.toNat = 8 then ['\\', 'b']
   else if c.toNat = 12 then ['\\', 'f']
   else if c.toNat < 32 then uEscape c.toNat
-  else if c = '<' ∨ c = '>' ∨ c = '&' then uEscape c.toNat
+  else if c.toNat = 60 ∨ c.toNat = 62 ∨ c.toNat = 38 then uEscape c.toNat     -- < > &
   else if c.toNat = 0x2028 ∨ c.toNat = 0x2029 then uEscape c.toNat
   else [c]
 
